@@ -634,12 +634,26 @@ def rule_key_equality(res, rid, m):
     short = [f["name"] for f in ep["fields"]]
     tbl_t = [f for f in m.fields if f["qname"] == m.table][0]["t"]["s"]
     ordered = tbl_t.startswith("std::map")
-    if ("less<" in tbl_t and not "std::less<ASAM::CMP::Decoder::Endpoint>" in tbl_t) or "EndpointLess" in tbl_t:
-        raise Broken("reassembly table uses a custom comparator type: rule not derived")
+    # a comparator functor given as the map's third template argument (struct Less { bool operator()(const Endpoint&, const Endpoint&) const; })
+    custom = None
+    if ordered:
+        tb = [f for f in m.fields if f["qname"] == m.table][0]["t"]
+        targs = tb.get("targs") or []
+        if len(targs) >= 3 and not targs[2].startswith("std::less<"):
+            cands = [r for r in fb.records if r == targs[2] or r.endswith("::" + targs[2].split("::")[-1])]
+            if len(cands) != 1:
+                raise Broken("reassembly table uses comparator type %s, which is not a record under the analysed root" % targs[2])
+            custom = fb.fn(cands[0] + "::operator()")
+            if len(custom.params) != 2:
+                raise Broken("%s::operator() does not take two keys" % cands[0])
 
     def evalop(fn, a, b):
         env = {}
         for nm, x, y in zip(short, a, b):
+            if fn is custom:
+                env[fn.params[0]["decl"] + "." + nm] = x
+                env[fn.params[1]["decl"] + "." + nm] = y
+                continue
             env["this->" + nm] = x
             env[fn.params[0]["decl"] + "." + nm] = y
         try:
@@ -688,10 +702,10 @@ def rule_key_equality(res, rid, m):
         res.check(rd <= set(names) and not calls, rid, "EndpointHash", h.loc, "hash is a function of the key only",
                   "EndpointHash reads %s / calls %s" % (sorted(rd - set(names)), sorted(calls)))
         return
-    lt = fb.fn(EP + "::operator<")
+    lt = custom if custom is not None else fb.fn(EP + "::operator<")
     okc, why = _comparison_only(lt, set(names))
     if not okc:
-        raise Broken("Endpoint::operator< is not comparison-only (%s)" % why)
+        raise Broken("%s is not comparison-only (%s)" % (lt.name, why))
     dom = list(itertools.product(range(3), repeat=len(short)))
     L = {(a, b): evalop(lt, a, b) for a in dom for b in dom}
     why = None
@@ -714,7 +728,7 @@ def rule_key_equality(res, rid, m):
                 for c in dom:
                     if L[(b, c)] and not L[(a, c)]:
                         why = why or "transitivity fails for %s < %s < %s" % (a, b, c)
-    res.check(why is None, rid, "Endpoint::operator<", lt.loc,
+    res.check(why is None, rid, "Endpoint::operator<" if custom is None else lt.name.replace(DEC + "::", ""), lt.loc,
               "strict weak ordering whose equivalence is equality of all fields — %d triples evaluated" % len(dom) ** 3,
               "Endpoint::operator< is not a strict weak ordering that separates endpoints (%s): std::map loses or merges reassembly entries" % why)
 
